@@ -68,6 +68,7 @@ type Gen struct {
 	nfresh   int
 	structs  map[string]*structInfo // by mangled name
 	comps    map[string]string      // base comp name -> sort
+	compTy   map[string]compType
 	compOrd  []string
 	strlits  map[string]string
 	obls     []*Obligation
@@ -87,7 +88,7 @@ func newGen(P *Program, mode, pkgPath string) *Gen {
 		mode = "int"
 	}
 	g := &Gen{P: P, mode: mode, pkgPath: pkgPath, declared: map[string]bool{}, structs: map[string]*structInfo{},
-		comps: map[string]string{}, strlits: map[string]string{}, pure: map[string]*pureDef{}, typeTags: map[string]int{},
+		comps: map[string]string{}, compTy: map[string]compType{}, strlits: map[string]string{}, pure: map[string]*pureDef{}, typeTags: map[string]int{},
 		assumptions: map[string]bool{}}
 	g.prelude()
 	return g
@@ -464,6 +465,40 @@ func (g *Gen) compDecl(base, sort string) {
 	}
 }
 
+type compType struct {
+	kind string // F | C | A | MV | MH
+	t    types.Type
+	key  types.Type
+}
+
+// typingAxiom: heap well-typedness for an otherwise unconstrained component symbol: every value
+// stored in a typed location is within the machine range of its type (true of every Go heap).
+func (g *Gen) typingAxiom(base, sym string) string {
+	ct, ok := g.compTy[base]
+	if !ok {
+		return ""
+	}
+	switch ct.kind {
+	case "F", "C":
+		if rf := g.rangeFact(ct.t, fmt.Sprintf("(select %s r)", sym)); rf != "" {
+			return fmt.Sprintf("(assert (forall ((r Int)) (! %s :pattern ((select %s r)))))", rf, sym)
+		}
+	case "A":
+		if rf := g.rangeFact(ct.t, fmt.Sprintf("(select (select %s r) i)", sym)); rf != "" {
+			return fmt.Sprintf("(assert (forall ((r Int) (i Int)) (! %s :pattern ((select (select %s r) i)))))", rf, sym)
+		}
+	case "MV":
+		if rf := g.rangeFact(ct.t, fmt.Sprintf("(select (select %s r) k)", sym)); rf != "" {
+			return fmt.Sprintf("(assert (forall ((r Int) (k %s)) (! %s :pattern ((select (select %s r) k)))))", g.sortOf(ct.key), rf, sym)
+		}
+	case "MH":
+		if rf := g.rangeFact(ct.key, "k"); rf != "" {
+			return fmt.Sprintf("(assert (forall ((r Int) (k %s)) (! (=> (select (select %s r) k) %s) :pattern ((select (select %s r) k)))))", g.sortOf(ct.key), sym, rf, sym)
+		}
+	}
+	return ""
+}
+
 // versioned symbol for a component
 func (g *Gen) compSym(base string, ver string) string {
 	sym := fmt.Sprintf("|%s@%s|", base, ver)
@@ -471,6 +506,9 @@ func (g *Gen) compSym(base string, ver string) string {
 	if !g.declared[key] {
 		g.declared[key] = true
 		g.decls = append(g.decls, fmt.Sprintf("(declare-const %s %s)", sym, g.comps[base]))
+		if ax := g.typingAxiom(base, sym); ax != "" {
+			g.decls = append(g.decls, ax)
+		}
 	}
 	return sym
 }
@@ -480,18 +518,21 @@ func (g *Gen) fieldComp(structT types.Type, i int) string {
 	f := st.Field(i)
 	base := "F:" + mangleType(structT) + "." + f.Name()
 	g.compDecl(base, fmt.Sprintf("(Array Int %s)", g.sortOf(f.Type())))
+	g.compTy[base] = compType{kind: "F", t: f.Type()}
 	return base
 }
 
 func (g *Gen) cellComp(t types.Type) string {
 	base := "C:" + mangleType(t)
 	g.compDecl(base, fmt.Sprintf("(Array Int %s)", g.sortOf(t)))
+	g.compTy[base] = compType{kind: "C", t: t}
 	return base
 }
 
 func (g *Gen) arrComp(elem types.Type) string {
 	base := "A:" + mangleType(elem)
 	g.compDecl(base, fmt.Sprintf("(Array Int (Array Int %s))", g.sortOf(elem)))
+	g.compTy[base] = compType{kind: "A", t: elem}
 	return base
 }
 
@@ -502,6 +543,8 @@ func (g *Gen) mapComps(mt *types.Map) (has, val, ln string) {
 	g.compDecl(has, fmt.Sprintf("(Array Int (Array %s Bool))", ks))
 	g.compDecl(val, fmt.Sprintf("(Array Int (Array %s %s))", ks, vs))
 	g.compDecl(ln, "(Array Int Int)")
+	g.compTy[has] = compType{kind: "MH", key: mt.Key()}
+	g.compTy[val] = compType{kind: "MV", t: mt.Elem(), key: mt.Key()}
 	return
 }
 
@@ -574,6 +617,9 @@ func (g *Gen) set(s *State, base, term string) {
 func (g *Gen) havocComp(s *State, base string) string {
 	sym := g.fresh(base)
 	g.decls = append(g.decls, fmt.Sprintf("(declare-const %s %s)", sym, g.comps[base]))
+	if ax := g.typingAxiom(base, sym); ax != "" {
+		g.decls = append(g.decls, ax)
+	}
 	s.m[base] = sym
 	return sym
 }
